@@ -27,6 +27,7 @@ class Cadical153:
             self.add_clause(c)
         self._booting = False
         INSTANCES.append(self)
+        del INSTANCES[:-4]  # keep only the most recent instances (a harness that needs one reads it right after the call)
 
     def _v(self, i):
         v = self.vars.get(i)
